@@ -34,7 +34,8 @@
        update_interval = 20                               rf_interval of the initial state
        while current_time < end_time:                     rf_run (fuelled; None = out of fuel)
            for i in range(update_interval): take_step()   rf_steps + rf_interval, batch_cost
-           steps_taken = chain_length - start_length
+           steps_taken = chain_length - start_length      w * rf_steps  (w = samples stored per step:
+                                                          1 for the chains, n_walkers for the ensemble)
            current_time = time()                          rf_now
            update_interval = int(steps_taken / (current_time - start_time))     rate  (pinned)
            repaired:  elapsed = current_time - start_time
@@ -196,39 +197,40 @@ Fixpoint batch_cost_acc (cost : nat -> Q) (from k : nat) (acc : Q) : Q :=
 Definition rate (steps : nat) (elapsed : Q) : nat :=
   Z.to_nat (Qfloor (Qn steps / elapsed)%Q).
 
-Definition rf_next (repaired : bool) (cost : nat -> Q) (b start : Q) (st : rf) : rf :=
+Definition rf_next (repaired : bool) (w : nat) (cost : nat -> Q) (b start : Q) (st : rf) : rf :=
   let steps' := rf_steps st + rf_interval st in
   let now' := Qred (batch_cost_acc cost (rf_steps st) (rf_interval st) (rf_now st) + b)%Q in
   let elapsed := (now' - start)%Q in
   let iv := if repaired
-            then (if Qle_bool elapsed 0 then rf_interval st else Nat.max (rate steps' elapsed) 1)
-            else rate steps' elapsed in
+            then (if Qle_bool elapsed 0 then rf_interval st else Nat.max (rate (w * steps') elapsed) 1)
+            else rate (w * steps') elapsed in
   mkRf steps' now' iv.
 
 (* the states at every evaluation of `current_time < end_time`; None = out of fuel *)
-Fixpoint rf_run (fuel : nat) (repaired : bool) (cost : nat -> Q) (b start stop : Q) (st : rf)
+Fixpoint rf_run (fuel : nat) (repaired : bool) (w : nat) (cost : nat -> Q) (b start stop : Q) (st : rf)
   : option (list rf) :=
   match fuel with
   | O => if Qle_bool stop (rf_now st) then Some [st] else None
   | S f => if Qle_bool stop (rf_now st) then Some [st]
-           else option_map (cons st) (rf_run f repaired cost b start stop (rf_next repaired cost b start st))
+           else option_map (cons st) (rf_run f repaired w cost b start stop (rf_next repaired w cost b start st))
   end.
 
-Fixpoint rf_iter (j : nat) (repaired : bool) (cost : nat -> Q) (b start : Q) (st : rf) : rf :=
+Fixpoint rf_iter (j : nat) (repaired : bool) (w : nat) (cost : nat -> Q) (b start : Q) (st : rf) : rf :=
   match j with
   | O => st
-  | S j' => rf_iter j' repaired cost b start (rf_next repaired cost b start st)
+  | S j' => rf_iter j' repaired w cost b start (rf_next repaired w cost b start st)
   end.
 
 Definition rf_init (start : Q) : rf := mkRf 0 start 20.
 
 (* ---------------------------------------------------------------- correspondence interface *)
-(* stub chain: the value appended by the k-th take_step is the counter k *)
-Definition stub_draw (c : chain unit) : list Z * Z * unit :=
-  ([Z.of_nat (chain_length c)], Z.of_nat (chain_length c), tt).
+(* stub chain: the value appended by the k-th take_step is the counter k (kept as a
+   binary number in the generator-state slot, so that a step costs O(1)) *)
+Definition stub_draw (c : chain Z) : list Z * Z * Z :=
+  ([rng c], rng c, (rng c + 1)%Z).
 
-Definition stub_chain (n : nat) : chain unit :=
-  mkChain (map (fun k => [Z.of_nat k]) (rev (seq 0 n))) (map Z.of_nat (rev (seq 0 n))) n tt.
+Definition stub_chain (n : nat) : chain Z :=
+  mkChain (map (fun k => [Z.of_nat k]) (rev (seq 0 n))) (map Z.of_nat (rev (seq 0 n))) n (Z.of_nat n).
 
 (* real chains: only the bookkeeping is compared *)
 Definition const_draw (c : chain unit) : list Z * Z * unit := ([0%Z], 0%Z, tt).
@@ -241,7 +243,7 @@ Definition zop (z : Z) : op := if (z <? 0)%Z then OStep else OAdvance (Z.to_nat 
 (* observed: chain_length, len(samples), len(probs), the newest five sample values *)
 Definition chain_obs := (Z * Z * Z * list Z)%type.
 
-Definition observe (with_values : bool) (c : chain unit) : chain_obs :=
+Definition observe {R} (with_values : bool) (c : chain R) : chain_obs :=
   (Z.of_nat (chain_length c), Z.of_nat (length (samples c)), Z.of_nat (length (probs c)),
    if with_values then map (fun x => hd 0%Z x) (firstn 5 (samples c)) else []).
 
@@ -257,8 +259,8 @@ Definition obs_eqb (a b : chain_obs) : bool :=
   (a1 =? b1)%Z && (a2 =? b2)%Z && (a3 =? b3)%Z && list_eqb Z.eqb a4 b4.
 
 (* the observation after every operation of a sequence *)
-Fixpoint observe_ops (with_values : bool) (draw : chain unit -> list Z * Z * unit)
-         (ops : list Z) (c : chain unit) : list chain_obs :=
+Fixpoint observe_ops {R} (with_values : bool) (draw : chain R -> list Z * Z * R)
+         (ops : list Z) (c : chain R) : list chain_obs :=
   match ops with
   | [] => []
   | z :: t => let c' := run_op draw c (zop z) in
@@ -278,7 +280,7 @@ Inductive case :=
 | CEns (n_walkers : nat) (its0 : nat) (its : list Z) (obs : list (option (Z * Z * Z * Z)))
 (* run_for: costs (cyclic), cost of a time() call, start_time, run_time, cap on iterations,
    observed (steps_taken, time) at every evaluation of the loop condition; None = did not return *)
-| CRunFor (costs : list Q) (b start run_time : Q) (fuel : nat) (obs : option (list (Z * Q))).
+| CRunFor (w : nat) (costs : list Q) (b start run_time : Q) (fuel : nat) (obs : option (list (Z * Q))).
 
 Definition ens_move (e : ens) (i : nat) : list Z * Z :=
   ([Z.of_nat (n_iterations e); Z.of_nat i], Z.of_nat (n_iterations e)).
@@ -320,7 +322,7 @@ Definition cyclic (costs : list Q) (i : nat) : Q :=
   | _ => nth (i mod (length costs)) costs 1%Q
   end.
 
-Definition rf_obs (st : rf) : Z * Q := (Z.of_nat (rf_steps st), rf_now st).
+Definition rf_obs (w : nat) (st : rf) : Z * Q := (Z.of_nat (w * rf_steps st), rf_now st).
 Definition zq_eqb (a b : Z * Q) : bool := (fst a =? fst b)%Z && Qeq_bool (snd a) (snd b).
 
 Definition check_case (c : case) : bool :=
@@ -332,10 +334,10 @@ Definition check_case (c : case) : bool :=
         (map (observe true) (pool_advance stub_draw (Z.to_nat n) (map stub_chain n0s))) obs
   | CEns nw its0 its obs =>
       list_eqb (opt_eqb z4_eqb) (ens_observe its (ens_start nw its0)) obs
-  | CRunFor costs b start run_time fuel obs =>
+  | CRunFor w costs b start run_time fuel obs =>
       opt_eqb (list_eqb zq_eqb)
-        (option_map (map rf_obs)
-           (rf_run fuel true (cyclic costs) b start (Qred (start + run_time)) (rf_init start)))
+        (option_map (map (rf_obs w))
+           (rf_run fuel true w (cyclic costs) b start (Qred (start + run_time)) (rf_init start)))
         obs
   end.
 
